@@ -144,6 +144,31 @@ func groupRoot(c *fw.Case, withID bool) (*model.Root, string, error) {
 		}
 		f = &model.Frame{Cols: []*model.Col{ki, ks}}
 	}
+	if f == nil && c.No%200 == 51 {
+		// very wide keys: dozens of bool columns whose rows differ in a single, late column
+		class = "many-bool-columns"
+		ncols := 60 + rng.Intn(75)
+		rows = 2 + rng.Intn(40)
+		base := make([]bool, ncols)
+		for i := range base {
+			base[i] = rng.Intn(2) == 0
+		}
+		f = &model.Frame{}
+		flip := make([]int, rows)
+		for r := range flip {
+			flip[r] = -1
+			if rng.Intn(4) > 0 {
+				flip[r] = ncols - 1 - rng.Intn(1+ncols/3) // towards the end
+			}
+		}
+		for i := 0; i < ncols; i++ {
+			col := model.NewCol(fmt.Sprintf("flag%03d", i), model.KBool, rows)
+			for r := 0; r < rows; r++ {
+				col.B[r] = base[i] != (flip[r] == i)
+			}
+			f.Cols = append(f.Cols, col)
+		}
+	}
 	if f == nil && c.No%7 == 3 {
 		if cs := findCollisions(c); len(cs.intPairs)+len(cs.strPairs) > 0 {
 			class = "collision"
@@ -241,6 +266,19 @@ func groupRoot(c *fw.Case, withID bool) (*model.Root, string, error) {
 }
 
 func pickKeys(rng *rand.Rand, sh *model.Frame, allowNone bool) []string {
+	if sh.Col("flag000") != nil && rng.Intn(4) > 0 {
+		// the wide class: (nearly) all flag columns together form the key
+		var keys []string
+		for _, col := range sh.Cols {
+			if strings.HasPrefix(col.Name, "flag") {
+				keys = append(keys, col.Name)
+			}
+		}
+		if rng.Intn(2) == 0 {
+			rng.Shuffle(len(keys), func(i, j int) { keys[i], keys[j] = keys[j], keys[i] })
+		}
+		return keys
+	}
 	var cands []string
 	for _, col := range sh.Cols {
 		if col.Name != model.IDCol && col.Name != "vi" && col.Name != "vf" && col.Name != "vb" {
@@ -593,6 +631,20 @@ func runC04(c *fw.Case) {
 		c.Count("insert_collisions", int64(g.Stats.InsertCollisions))
 		c.Count(fmt.Sprintf("relocation_count:%d", g.Stats.RelocationCount), 1)
 
+		// sometimes the same Grouper first serves an aggregation made of built-ins only (it must not disturb later use)
+		if rng.Intn(3) == 0 && sh.Len() > 0 {
+			var pre qframe.QFrame
+			if !c.GuardFail("aggregate-builtin", desc+".Aggregate(count, sum)", func() {
+				pre = g.Aggregate(qframe.Aggregation{Fn: "count", Column: "vb", As: "n"}, qframe.Aggregation{Fn: "sum", Column: "vi", As: "s"}, qframe.Aggregation{Fn: "max", Column: "vf", As: "m"})
+			}) {
+				continue
+			}
+			if pre.Err == nil && pre.Len() != len(classes) {
+				c.Fail("agg-rows:"+vkey, "%s: built-in aggregate has %d rows, reference has %d classes", desc, pre.Len(), len(classes))
+				continue
+			}
+			c.Count("groupers_reused_after_builtin_aggregate", 1)
+		}
 		// --- QFrames: exactly the classes
 		var frames []qframe.QFrame
 		var ferr error
